@@ -467,7 +467,10 @@ def features(rec, goalT, macro):
             v = arith.eval_num(r[1])
             if isinstance(v, Fraction) and v == 0:
                 f.add('zero-divisor')
+        elif r[0] == 'rpow' and not ground:
+            f.add('real-power')
         elif r[0] == 'rpow' and ground:
+            f.add('real-power')
             b, x = arith.eval_num(r[1]), arith.eval_num(r[2])
             if b is not None and arith.compare(b, Fraction(0)) == -1:
                 f.add('negative-base')
@@ -512,7 +515,9 @@ def root_cause(macro, goal_json, goalT, feats, asserted):
             cf = None
         if asserted is None or cf is None or cf == asserted:
             return 'goal-type-not-' + intended
-    if macro == 'const_inequality' and ('irrational' in feats or 'non-integer-exponent' in feats):
+    if macro == 'const_inequality' and ('irrational' in feats or 'real-power' in feats):
+        # the only way from const_inequality into Python floats: real_eval gives up (sqrt, pi, ..., a real power whose
+        # exponent is not a Python int) and real_approx_eval takes over
         return 'float-compare'
     if 'non-integer-exponent' in feats:
         return 'float-power'
@@ -609,40 +614,65 @@ def _clamp(T, v):
     return v
 
 
-def alt_value(e, trunc):
-    """Generator-side value of a ring expression under the *other* subtraction semantics: every minus truncated
-    at 0 (what an evaluator written for naturals computes) or never truncated (what one written for integers /
-    reals computes), whatever the type of the leaves.  Only used to propose right-hand sides."""
+CONFUSIONS = ('times->plus', 'plus->times', 'minus->plus', 'minus->swapped', 'div0->x', 'div0->1', 'div->times',
+              'pow->times', 'neg->id', 'suc->id', 'inv0->1')
+
+
+def alt_value(e, trunc, conf=None):
+    """Generator-side value of a rational expression under a *wrong* semantics; only used to propose right-hand
+    sides (never as an oracle).  `trunc`: every minus truncated at 0 (what an evaluator written for naturals
+    computes) or never truncated (what one written for integers / reals computes), whatever the type of the leaves.
+    `conf`: one operator confusion from CONFUSIONS (the slips a broken evaluator would make)."""
     tag = e[0]
+    rec = lambda x, t=trunc: alt_value(x, t, conf)
     try:
         if tag == 'num':
             return Fraction(e[2])
         if tag in ('plus', 'minus', 'times', 'div'):
-            a, b = alt_value(e[1], trunc), alt_value(e[2], trunc)
+            a, b = rec(e[1]), rec(e[2])
             if a is None or b is None:
                 return None
+            if conf == tag + '->plus':
+                tag = 'plus'
+            elif conf == tag + '->times':
+                tag = 'times'
+            elif conf == 'minus->swapped' and tag == 'minus':
+                a, b = b, a
             if tag == 'plus':
                 return a + b
             if tag == 'times':
                 return a * b
             if tag == 'div':
-                return Fraction(0) if b == 0 else a / b
+                if b == 0:
+                    return a if conf == 'div0->x' else Fraction(1) if conf == 'div0->1' else Fraction(0)
+                return a / b
             return max(a - b, Fraction(0)) if trunc else a - b
         if tag == 'neg':
-            a = alt_value(e[1], trunc)
-            return None if a is None else -a
-        if tag == 'suc':
-            a = alt_value(e[1], trunc)
-            return None if a is None else a + 1
-        if tag == 'pow':
-            a, b = alt_value(e[1], trunc), alt_value(e[2], True)
-            if a is None or b is None or b.denominator != 1 or not 0 <= b <= 12:
+            a = rec(e[1])
+            return None if a is None else (a if conf == 'neg->id' else -a)
+        if tag == 'inv':
+            a = rec(e[1])
+            if a is None:
                 return None
+            if a == 0:
+                return Fraction(1) if conf == 'inv0->1' else Fraction(0)
+            return 1 / a
+        if tag == 'suc':
+            a = rec(e[1])
+            return None if a is None else (a if conf == 'suc->id' else a + 1)
+        if tag in ('pow', 'rpow'):
+            a, b = rec(e[1]), rec(e[2], True if tag == 'pow' else trunc)
+            if a is None or b is None or b.denominator != 1 or abs(b) > 12:
+                return None
+            if conf == 'pow->times':
+                return a * b
+            if b < 0:
+                return Fraction(0) if a == 0 else (1 / a) ** int(-b)
             return a ** int(b)
         if tag == 'of_nat':
-            return alt_value(e[2], True)
+            return rec(e[2], True)
         if tag == 'of_int':
-            return alt_value(e[1], False)
+            return rec(e[1], False)
     except (ZeroDivisionError, OverflowError, ValueError):
         return None
     return None
@@ -765,8 +795,8 @@ def strategies():
         depth = draw(st.sampled_from([1, 2, 2, 3, 3, 4]))
         lhs = draw(expr(T, spec['ops'], depth))
         v = value_of(lhs)
-        mode = draw(st.sampled_from(['true', 'true', 'true', 'true', 'alt', 'alt', 'alt', 'near', 'near', 'float',
-                                     'float', 'off1', 'random', 'expr']))
+        mode = draw(st.sampled_from(['true', 'true', 'true', 'true', 'alt', 'alt', 'alt', 'confuse', 'confuse', 'confuse',
+                                     'near', 'near', 'float', 'float', 'off1', 'random', 'expr']))
         base = None if v is None else arith.midpoint(v)
         rhs = None
         if mode == 'alt':
@@ -774,7 +804,18 @@ def strategies():
             w = alt_value(lhs, trunc=(T != 'nat'))
             if w is not None and _clamp(T, w) == w:
                 rhs = _num(T, w)
-        if rhs is None and base is not None and mode in ('true', 'alt'):
+        if mode == 'confuse':
+            # the value a slightly broken evaluator would compute (one operator confusion that changes the value),
+            # at either minus semantics
+            tr = (T == 'nat') if draw(st.integers(0, 3)) else (T != 'nat')
+            cands = []
+            for c in CONFUSIONS:
+                w = alt_value(lhs, tr, c)
+                if w is not None and w != v and _clamp(T, w) == w and w not in cands:
+                    cands.append(w)
+            if cands:
+                rhs = _num(T, draw(st.sampled_from(cands)))
+        if rhs is None and base is not None and mode in ('true', 'alt', 'confuse'):
             if isinstance(v, Fraction):
                 rhs = _num(T, _clamp(T, base))
             else:   # irrational: a rational that is certainly on one side
@@ -1058,9 +1099,9 @@ def strategies():
 
 
 # ---------------------------------------------------------------------------------------------- exploration
-QUICK = {'nat_eval': 3000, 'int_eval': 3000, 'int_const_ineq': 3000, 'real_eval': 3000, 'real_const_eq': 3000,
-         'real_compare': 3000, 'real_const_ineq': 3000, 'const_inequality': 3600, 'real_norm': 3000,
-         'real_eq_comparison': 480}
+QUICK = {'nat_eval': 2000, 'int_eval': 2000, 'int_const_ineq': 2000, 'real_eval': 2400, 'real_const_eq': 2000,
+         'real_compare': 2000, 'real_const_ineq': 2000, 'const_inequality': 3000, 'real_norm': 2400,
+         'real_eq_comparison': 400}
 THOROUGH_FACTOR = 16
 
 
